@@ -1,7 +1,7 @@
 CONSTANTS
   Variant = "fixed"
   XVariant = "fixed"
-  RuleIds = {9, 13, 14, 16, 17, 18, 19, 20, 35}
+  RuleIds = {9, 13, 16, 17, 18, 19, 35}
   K = 2
   Toks <- TokQ
   MaxParts = 2
@@ -12,4 +12,3 @@ CONSTANTS
 INIT Init
 NEXT Next
 INVARIANT ImplInExpectedX
-INVARIANT AdapterOpsInContract
